@@ -238,9 +238,55 @@ class _Stmt(ast.NodeTransformer):
                 out.append(ast.copy_location(ast.Expr(value=ast.copy_location(call, s)), s))
                 i += 1
                 continue
+            # if A: (if B: X)   ->   if A and B: X      (no else on either)
+            if isinstance(s, ast.If) and not s.orelse and len(s.body) == 1 and isinstance(s.body[0], ast.If) and not s.body[0].orelse:
+                inner = s.body[0]
+                vals = (s.test.values if isinstance(s.test, ast.BoolOp) and isinstance(s.test.op, ast.And) else [s.test]) + \
+                    (inner.test.values if isinstance(inner.test, ast.BoolOp) and isinstance(inner.test.op, ast.And) else [inner.test])
+                merged = ast.copy_location(ast.If(test=ast.copy_location(ast.BoolOp(op=ast.And(), values=list(vals)), s.test), body=inner.body, orelse=[]), s)
+                if getattr(s, "_elif", False):
+                    merged._elif = True
+                out.append(merged)
+                i += 1
+                continue
+            # d.update({k: v, ...})   ->   d[k] = v ; ...
+            if isinstance(s, ast.Expr) and isinstance(s.value, ast.Call) and isinstance(s.value.func, ast.Attribute) and s.value.func.attr == "update" \
+                    and len(s.value.args) == 1 and not s.value.keywords and isinstance(s.value.args[0], ast.Dict) and s.value.args[0].keys \
+                    and all(k is not None for k in s.value.args[0].keys) and isinstance(s.value.func.value, (ast.Name, ast.Attribute)):
+                for k, v in zip(s.value.args[0].keys, s.value.args[0].values):
+                    tgt = ast.Subscript(value=copy.deepcopy(s.value.func.value), slice=k, ctx=ast.Store())
+                    out.append(ast.fix_missing_locations(ast.copy_location(ast.Assign(targets=[tgt], value=v, lineno=s.lineno), s)))
+                i += 1
+                continue
+            # def f(a, b): return E   (local, only passed around)   ->   lambda a, b: E at its uses
+            if isinstance(s, ast.FunctionDef) and not s.decorator_list and self._depth > 0:
+                body = [b for b in s.body if not (isinstance(b, ast.Expr) and isinstance(b.value, ast.Constant))]
+                a = s.args
+                rest = stmts[i + 1:]
+                if len(body) == 1 and isinstance(body[0], ast.Return) and body[0].value is not None and not (a.vararg or a.kwarg or a.kwonlyargs or a.posonlyargs or a.defaults) \
+                        and not any(isinstance(x, (ast.Await, ast.Yield, ast.YieldFrom)) for x in ast.walk(body[0].value)) \
+                        and not any(isinstance(x, ast.Name) and x.id == s.name and not isinstance(x.ctx, ast.Load) for r in rest for x in ast.walk(r)) \
+                        and not any(isinstance(x, ast.Name) and x.id == s.name for x in ast.walk(body[0].value)) \
+                        and sum(1 for r in rest for x in ast.walk(r) if isinstance(x, ast.Name) and x.id == s.name) == 1:
+                    lam = ast.Lambda(args=ast.arguments(posonlyargs=[], args=[ast.arg(arg=x.arg) for x in a.args], kwonlyargs=[], kw_defaults=[], defaults=[]), body=body[0].value)
+                    new_rest = [ast.fix_missing_locations(_ArgSubst({s.name: ast.copy_location(lam, s)}).visit(r)) for r in rest]
+                    stmts = stmts[:i + 1] + new_rest
+                    i += 1
+                    continue
             out.append(s)
             i += 1
         return out
+
+    _depth = 0
+
+    def visit_FunctionDef(self, node):
+        self._depth += 1
+        try:
+            return self.generic_visit(node)
+        finally:
+            self._depth -= 1
+
+    visit_AsyncFunctionDef = visit_FunctionDef
 
     def generic_visit(self, node):
         # an `elif` chain is a decision table, not a conditional assignment: its members keep their statement form
@@ -264,8 +310,103 @@ class _Stmt(ast.NodeTransformer):
             node.body = self._block(node.body, False)
         return node
 
+# ---------------------------------------------------------------------- private one-expression helpers are inlined
+class _ArgSubst(ast.NodeTransformer):
+    def __init__(self, m):
+        self.m = m
+
+    def visit_Name(self, n):
+        if isinstance(n.ctx, ast.Load) and n.id in self.m:
+            return copy.deepcopy(self.m[n.id])
+        return n
+
+
+def _bound_inside(e: ast.AST) -> set[str]:
+    out = set()
+    for n in ast.walk(e):
+        if isinstance(n, ast.comprehension):
+            out |= {x.id for x in ast.walk(n.target) if isinstance(x, ast.Name)}
+        elif isinstance(n, ast.Lambda):
+            out |= {a.arg for a in n.args.args}
+        elif isinstance(n, ast.NamedExpr):
+            out.add(n.target.id)
+    return out
+
+
+def _inline_helpers(tree: ast.Module) -> ast.Module:
+    """``self._helper(a, b)`` -> the helper's single returned expression with its parameters substituted, for private instance/static
+    methods whose body is one ``return <expr>`` and whose name is defined once in the module (not an overridable backend hook).  Extracting
+    a condition or a selection into such a helper, or inlining one, is invisible to the rules."""
+    classes = [c for c in ast.walk(tree) if isinstance(c, ast.ClassDef)]
+    names: dict[str, int] = {}
+    for c in classes:
+        for m in c.body:
+            if isinstance(m, (ast.FunctionDef, ast.AsyncFunctionDef)):
+                names[m.name] = names.get(m.name, 0) + 1
+    for c in classes:
+        helpers = {}
+        for m in c.body:
+            if not isinstance(m, ast.FunctionDef) or not m.name.startswith("_") or m.name.startswith("__") or names.get(m.name) != 1:
+                continue
+            decos = [ast.unparse(d) for d in m.decorator_list]
+            if any(d != "staticmethod" for d in decos):
+                continue
+            body = [s for s in m.body if not (isinstance(s, ast.Expr) and isinstance(s.value, ast.Constant))]
+            if len(body) != 1 or not isinstance(body[0], ast.Return) or body[0].value is None:
+                continue
+            a = m.args
+            if a.vararg or a.kwarg or a.kwonlyargs or a.posonlyargs:
+                continue
+            if any(isinstance(x, (ast.Await, ast.Yield, ast.YieldFrom)) for x in ast.walk(body[0].value)):
+                continue
+            params = [x.arg for x in a.args]
+            static = "staticmethod" in decos
+            if not static:
+                if not params:
+                    continue
+                params = params[1:]
+            defaults = dict(zip(params[len(params) - len(a.defaults):], a.defaults)) if a.defaults else {}
+            helpers[m.name] = (params, defaults, body[0].value, static, m.args.args[0].arg if not static else None)
+        if not helpers:
+            continue
+
+        class Inl(ast.NodeTransformer):
+            def visit_Call(self, n):
+                self.generic_visit(n)
+                f = n.func
+                if not (isinstance(f, ast.Attribute) and f.attr in helpers and isinstance(f.value, ast.Name) and f.value.id in ("self", c.name)):
+                    return n
+                params, defaults, expr, static, selfname = helpers[f.attr]
+                if f.value.id == c.name and not static:
+                    return n
+                if any(isinstance(x, ast.Starred) for x in n.args) or any(k.arg is None for k in n.keywords) or len(n.args) > len(params):
+                    return n
+                m = dict(zip(params, n.args))
+                for k in n.keywords:
+                    if k.arg not in params or k.arg in m:
+                        return n
+                    m[k.arg] = k.value
+                for p_ in params:
+                    if p_ not in m:
+                        if p_ not in defaults:
+                            return n
+                        m[p_] = defaults[p_]
+                bound = _bound_inside(expr)
+                for v in m.values():
+                    if {x.id for x in ast.walk(v) if isinstance(x, ast.Name)} & bound:
+                        return n
+                if selfname and selfname != "self":
+                    m[selfname] = ast.Name(id="self", ctx=ast.Load())
+                return ast.copy_location(_ArgSubst(m).visit(copy.deepcopy(expr)), n)
+
+        for m in c.body:
+            if isinstance(m, (ast.FunctionDef, ast.AsyncFunctionDef)) and m.name not in helpers:
+                Inl().visit(m)
+    return tree
+
 
 def normalize(tree: ast.Module) -> ast.Module:
+    tree = _inline_helpers(tree)
     tree = _Expr().visit(tree)
     tree = _Stmt().visit(tree)
     tree = _Expr().visit(tree)
